@@ -144,7 +144,8 @@ func C01(c *Ctx) {
 	r.Analysed["map_ranges_on_consensus_paths"] = counts["maprange"]
 	r.Analysed["float_sites_on_consensus_paths"] = counts["float"]
 	r.Floor("wall-clock sites on consensus paths (exceptions exercised)", counts["wallclock"], 1)
-	r.Floor("map ranges on consensus paths (exceptions exercised)", counts["maprange"], 1)
+	// (no floor on the map ranges: a tree without any on its consensus paths is what the rule asks for; that the rule sees
+	// a map range when there is one is the fixture control A6.sources below)
 
 	// package-level variables written outside init must not be read on consensus paths
 	written := map[string]string{}
@@ -536,6 +537,9 @@ func keeperMutationRule(c *Ctx, fs []*ssa.Function, rule string) {
 					if !ptr && mb.Derefs == 0 {
 						continue // write into the local copy of a value receiver
 					}
+					if mb.Derefs == 0 && c.transientHolder(nt) {
+						continue // write into a per-operation helper object (made and dropped within the transaction or block)
+					}
 					n++
 					r.Bad(rule, fn(f)+"|"+nt.Obj().Name(), pos(c, in), "keepers, decorators and module objects, and memory they hold, are never written on a consensus path (no state outside the KVStore: it would not survive a restart, and a discarded CheckTx/simulate/proposal branch would not undo it)", what+" to memory reachable from "+mb.P.Name()+" ("+nt.Obj().Name()+")")
 					break
@@ -575,7 +579,9 @@ func C14(c *Ctx) {
 	w, r := c.W, c.R
 	r.Explanation = "(A10) abort-source inventory on the block-level roots (BeginBlock, EndBlock, registered invariants) over the repo call graph: every explicit panic and every call of a panicking SDK API reachable from them is enumerated; each must be discharged by its class — lookup of an id read from the queue section it iterates (found / status panics, consistent by C03's writer rules), error of a setter that fails only on an invalid constant, permission panics excluded by the evaluated maccPerms (enterprise holds Minter and Staking) — or appear in the reviewed table keyed by function, kind and ordinal; anything else is a violation. " +
 		"Denomination provenance: a Coin.Add/Sub on a block-level path whose operands take their denomination from different sources (module parameter vs stored record) is flagged. (b) handlers and ante decorators keep all state in the transaction-scoped stores: C01's out-of-band-state rule restricted to MSG ∪ ANTE roots, so baseapp's rollback covers everything a failed transaction did. (c) error discipline (A8): on every transaction, block and genesis path the error result of a call that can change state (store write/delete or bank move, directly or through in-scope callees) has at least one use — a discarded error would let a handler commit the remaining steps of a half-failed operation, since baseapp rolls back only on a returned error. Atomicity and panic recovery of runTx are trusted; reachability of reviewed panics over all histories is not decided."
-	r.Rules = []string{"A10.block-panics", "A2.panic-class", "A10.denom-provenance", "A5.module-permissions", "A6.tx-scoped-state", "A6.no-recover", "A8.error-propagation", "A10.implicit-panic"}
+	r.Rules = []string{"A10.block-panics", "A2.panic-class", "A10.denom-provenance", "A5.module-permissions", "A6.tx-scoped-state", "A6.no-recover", "A8.error-propagation", "A10.implicit-panic", "A3.queue-membership"}
+	// the begin-blocker panics on a queued order in another status: an id reaches a queue only with that status
+	queueMembership(c)
 	r.Trusted = []string{"baseapp runTx: cache-wrapped stores, panic recovery, all-or-nothing message execution", "reasons in the reviewed table"}
 	r.NotDecided = []string{"that reviewed panics are unreachable for every history", "commit/IAVL failures"}
 
